@@ -976,8 +976,11 @@ def shrink(case):
             subs.append(dict(sg, alts=alts, dkind="key"))
         return dict(dc, name=dc["name"] + "q", leaves=leaves, subs=subs)
 
+    def size(dc):
+        return len(dc["leaves"]) + sum(1 + size(a["dc"]) for sg in dc["subs"] for _, a in sg["alts"])
+
     coarse = prune_all(case["tree"], ROOT)
-    if json.dumps(coarse, sort_keys=True).replace('q"', '"') != json.dumps(case["tree"], sort_keys=True).replace('q"', '"'):
+    if size(coarse) < size(case["tree"]):
         yield dict(case, tree=coarse)
     if len(toks) > 3:
         yield dict(case, toks=toks[: len(toks) // 2])
@@ -997,6 +1000,8 @@ def shrink(case):
                 yield dict(dc, name=nm, leaves=dc["leaves"][:i] + dc["leaves"][i + 1:])
         for si, sg in enumerate(dc["subs"]):
             d = path + "." + sg["f"]
+            if not any((t.get("dest") or "").startswith(d) for t in toks):
+                yield dict(dc, name=nm, subs=dc["subs"][:si] + dc["subs"][si + 1:])     # a whole subgroup field nobody mentions
             for ai, (k, a) in enumerate(sg["alts"]):
                 if len(sg["alts"]) > 1 and k != sg["default"] and not any(t.get("dest") == d and t.get("key", t.get("v")) == k for t in toks):
                     sg2 = dict(sg, alts=sg["alts"][:ai] + sg["alts"][ai + 1:], dkind="key")
